@@ -270,7 +270,28 @@ func buildTools(r *lib.Rng, z *zoo) (*object, error) {
 	}
 	sharedTn := []compose.ToolsNodeOption{compose.WithToolOption(tool.WrapImplSpecificOptFn(func(o *topt) { o.Val += "S" }))}
 	sharedC := []compose.Option{compose.WithToolsNodeOption(sharedTn...), compose.WithCallbacks(sharedHandler("so"))}
+	d := &dGraph{}
+	d.node("tn", "(FTools "+lib.CoqStrList(strs("echo", "sp", "rd"))+" true)", 2)
+	d.edge(compose.START, "tn")
+	d.edge("tn", compose.END)
+	d.defaultMax()
 	return &object{
+		desc: d,
+		mcall: func(sp spec, si int) string {
+			var tcs []string
+			for i, c := range inputs[sp.In%len(inputs)] {
+				j := strings.Index(c, "(")
+				tcs = append(tcs, tcT(fmt.Sprintf("id%d", i), c[:j], selfTag+strings.TrimSuffix(c[j+1:], ")")))
+			}
+			var own []string
+			if sp.Opt&optLambdaDesignated != 0 {
+				own = append(own, opT(2, fmt.Sprintf("t%d", si)))
+			}
+			if sp.Opt&optLambdaGlobal != 0 {
+				own = append(own, opT(2, "!echo,alt"))
+			}
+			return callTerm(vMsg(msgT("assistant", "", tcs...)), mWithShared(sp.Opt, strs(opT(2, "S")), own), 0)
+		},
 		kind: "tools", shape: []string{fmt.Sprintf("inchain:%v", inChain)},
 		nIn: len(inputs), paras: paras,
 		// optLambdaDesignated = per-call tool option; optLambdaGlobal = per-call tool list
@@ -285,8 +306,7 @@ func buildTools(r *lib.Rng, z *zoo) (*object, error) {
 			in := schema.AssistantMessage("", tcs)
 			var tnOpts []compose.ToolsNodeOption
 			if sp.Opt&optLambdaDesignated != 0 {
-				tag, val := rc.tag, fmt.Sprintf("t%d", rc.spec)
-				tnOpts = append(tnOpts, compose.WithToolOption(tool.WrapImplSpecificOptFn(func(o *topt) { o.Tag, o.Val = tag, val })))
+				tnOpts = append(tnOpts, compose.WithToolOption(toolOptFn(rc.tag, fmt.Sprintf("t%d", rc.spec))))
 			}
 			if sp.Opt&optLambdaGlobal != 0 {
 				tnOpts = append(tnOpts, compose.WithToolList(alt...))
@@ -337,6 +357,36 @@ var reactScripts = []string{
 }
 
 func (z *zoo) reactAgent(ctx context.Context, r *lib.Rng, shape *[]string) (*react.Agent, error) {
+	ag, _, err := z.reactAgentD(ctx, r, shape)
+	return ag, err
+}
+
+// reactDesc: the graph react.NewAgent builds (flow/agent/react/react.go:161-303)
+func reactDesc(rd, modifier bool, maxStep int) *dGraph {
+	d := &dGraph{agentSt: true}
+	d.node("chat", "(FModel "+q("react")+" 4%nat)", 1, "pre=(HReactModel "+lib.CoqBool(modifier)+")")
+	rds := []string{}
+	if rd {
+		rds = strs("rd", "rd2")
+	}
+	d.node("tools", "(FTools "+lib.CoqStrList(strs("echo", "sp", "rd", "rd2"))+" false)", 2, "pre=(HReactTools "+lib.CoqStrList(rds)+")")
+	d.edge(compose.START, "chat")
+	d.branch("chat", "(BToolCalls "+q("tools")+")", "tools", compose.END)
+	if rd {
+		d.node("direct_return", "FDirectReturn", -1)
+		d.branch("tools", "BReturnDirectly", "chat", "direct_return")
+		d.edge("direct_return", compose.END)
+	} else {
+		d.edge("tools", "chat")
+	}
+	d.defaultMax()
+	if maxStep > 0 {
+		d.max = maxStep
+	}
+	return d
+}
+
+func (z *zoo) reactAgentD(ctx context.Context, r *lib.Rng, shape *[]string) (*react.Agent, *dGraph, error) {
 	rd := z.flag("rd", r.Chance(2, 3))
 	modifier := z.flag("modifier", r.Chance(1, 2))
 	customChecker := z.flag("checker", r.Chance(1, 3))
@@ -378,7 +428,20 @@ func (z *zoo) reactAgent(ctx context.Context, r *lib.Rng, shape *[]string) (*rea
 		}
 	}
 	*shape = append(*shape, fmt.Sprintf("rd:%v", rd), fmt.Sprintf("modifier:%v", modifier), fmt.Sprintf("checker:%v", customChecker), fmt.Sprintf("maxstep:%d", maxStep))
-	return react.NewAgent(ctx, cfg)
+	ag, err := react.NewAgent(ctx, cfg)
+	return ag, reactDesc(rd, modifier, maxStep), err
+}
+
+// mAgentOpts mirrors agentOpts / sharedAgentOpts (callbacks are not modelled)
+func mAgentOpts(si, bits int) []string {
+	var own []string
+	if bits&optLambdaDesignated != 0 {
+		own = append(own, opT(1, fmt.Sprintf("m%d", si)))
+	}
+	if bits&optLambdaGlobal != 0 {
+		own = append(own, opT(2, fmt.Sprintf("t%d", si)))
+	}
+	return mWithShared(bits, strs(opT(1, "S"), opT(2, "S")), own)
 }
 
 func concatOneMsg(cs []*schema.Message) (*schema.Message, error) {
@@ -423,12 +486,17 @@ func agentOpts(rc *callRec, bits int) []agent.AgentOption {
 func buildReact(r *lib.Rng, z *zoo) (*object, error) {
 	ctx := context.Background()
 	var shape []string
-	ag, err := z.reactAgent(ctx, r, &shape)
+	ag, d, err := z.reactAgentD(ctx, r, &shape)
 	if err != nil {
 		return nil, err
 	}
 	sharedA := sharedAgentOpts()
 	return &object{
+		desc: d,
+		mcall: func(sp spec, si int) string {
+			return callTerm(vMsgs(msgT("user", selfTag+" "+reactScripts[sp.In%len(reactScripts)])),
+				mAgentOpts(si, sp.Opt&^optMaxSteps), 0, sp.Opt&optMaxSteps != 0)
+		},
 		kind: "react", shape: shape,
 		nIn: len(reactScripts), paras: []string{"invoke", "stream"},
 		optSet:  []int{0, optLambdaDesignated, optLambdaGlobal, optCbGlobal, optCbThree, optLambdaDesignated | optLambdaGlobal | optCbGlobal, optCtxHandlers, optShared, optShared | optLambdaDesignated | optCbGlobal,
@@ -497,7 +565,7 @@ var hostScripts = []string{
 func buildHost(r *lib.Rng, z *zoo) (*object, error) {
 	ctx := context.Background()
 	var shape []string
-	inner, err := z.reactAgent(ctx, r, &shape)
+	inner, dInner, err := z.reactAgentD(ctx, r, &shape)
 	if err != nil {
 		return nil, err
 	}
@@ -543,7 +611,30 @@ func buildHost(r *lib.Rng, z *zoo) (*object, error) {
 	}
 	shape = append(shape, fmt.Sprintf("prompt:%v", withPrompt))
 	sharedA := sharedAgentOpts()
+	// flow/agent/multiagent/host/compose.go:43-125
+	d := &dGraph{agentSt: true}
+	hostPrompt, specPrompt := "decide which tool is best for the task and call only the best tool.", ""
+	if withPrompt {
+		hostPrompt, specPrompt = "route", "be special"
+	}
+	d.node("smodel", "(FModel "+q("smodel")+" 0%nat)", 1, "pre=(HSpecialist "+q(specPrompt)+")")
+	d.node("slambda", "FSLambda", -1, "pre=(HSpecialist "+q("")+")")
+	d.node("sreact", "(FSReact "+dInner.term()+")", -1, "pre=(HSpecialist "+q("")+")")
+	d.node("host", "(FModel "+q("host")+" 3%nat)", 1, "pre=(HHost "+q(hostPrompt)+")")
+	d.node("msg2MsgList", "FToList", -1)
+	d.edge(compose.START, "host")
+	d.branch("host", "(BToolCalls "+q("msg2MsgList")+")", "msg2MsgList", compose.END)
+	d.branch("msg2MsgList", "BSpecialist", "smodel", "slambda", "sreact")
+	for _, k := range strs("smodel", "slambda", "sreact") {
+		d.edge(k, compose.END)
+	}
+	d.defaultMax()
 	return &object{
+		desc: d, depth: 2,
+		mcall: func(sp spec, si int) string {
+			return callTerm(vMsgs(msgT("user", selfTag+" "+hostScripts[sp.In%len(hostScripts)])),
+				mAgentOpts(si, sp.Opt&^optMaxSteps), 0)
+		},
 		kind: "host", shape: shape,
 		nIn: len(hostScripts), paras: []string{"invoke", "stream"},
 		// optMaxSteps bit is reused here for "with hand-off callbacks"
